@@ -19,15 +19,19 @@ MANIFEST = {
             "processables are a gap-free ascending run of stored nonces whose txs passed verification in a reorg and are exactly "
             "the sender's lowest pooled nonces (never a run above a pooled, unprocessed lower nonce). Blocking: "
             "the lock skeletons of txpool.go/txlist.go/event.go, regenerated from /repo on every run, are safe programs, hence "
-            "(Conc/Progress.v) no pool operation can wait for a lock forever, including when the pool is full. The model is tied to "
+            "(Conc/Progress.v) no pool operation can wait for a lock forever, including when the pool is full; every method of the pool "
+            "and of the sender list is a single critical section of its own lock (generated Conc/Atomic.v obligation), which is what "
+            "makes the single-step model the implementation's state machine. The model is tied to "
             "the Go code by replaying random operation sequences (limits 1..3, evictions, replacements, reorgs interleaved with "
-            "Add/Remove at the verifier call) on the real pool through a verif-tagged snapshot hook, each call under a watchdog; "
+            "Add/Remove at the verifier call, Adds parked at their own verifier call overlapped with a second Add / Remove / reorg) "
+            "on the real pool through a verif-tagged snapshot hook, each call under a watchdog; "
             "every snapshot is compared with the model and checked against the declarative oracle.",
     "note": "Partial on the liveness half: the theorem is deadlock-freedom of the lock/blocking skeleton (some goroutine can always "
             "step; lock waiters are never stuck), not termination under an unfair scheduler; opaque calls made under the pool lock "
-            "(ABI VerifyTransaction, conn.Publish) are assumed to return. Interleavings inside the harness are controlled only at "
-            "the verifier call of reorg goroutines; finer interleavings are covered by the theorem (atomic steps = critical sections) "
-            "and by the skeleton, not sampled. 'passed verification' = the verifier did not answer Invalid (verifyTransactions treats "
+            "(ABI VerifyTransaction, conn.Publish) are assumed to return. The invariant theorems are about the state machine whose atomic "
+            "steps are Add, Remove, reorg spawn and single reorg-goroutine actions; a method split into several critical sections "
+            "would be a different machine - excluded by the generated single-critical-section obligation. Harness interleavings are "
+            "controlled at the verifier calls (reorg goroutines, and Add itself); finer ones are covered by theorem + skeleton, not sampled. 'passed verification' = the verifier did not answer Invalid (verifyTransactions treats "
             "Pending as a pass; the Pending branch of reorg is dead code). Trusted: Coq kernel + vm_compute, translate/skeletons, "
             "Go harness, Python glue, container/heap keeping the minimum at index 0.",
 }
@@ -63,7 +67,7 @@ def count_generated(ck):
         src = open(SKEL_OUT).read()
     except OSError:
         return 0
-    return len(re.findall(r"^Lemma (safe_|fanouts_ok)", src, re.M))
+    return len(re.findall(r"^Lemma (safe_|fanouts_ok|multi_reads_ok|atomic_ops_single_section)", src, re.M))
 
 
 def tx_term(a):
@@ -90,8 +94,8 @@ def snap_term(s):
 
 
 def step_term(st):
-    return "(%s, mkObs %s %s %s %s %s %s)" % (op_term(st["op"]), cbool(st["ret"]), cbool(st["hang"]), cbool(bool(st["panic"])),
-                                           cbool(st["api"]), clist(st["gone"]), snap_term(st["snap"]))
+    return "(%s, mkObs %s %s %s %s %s %s %s)" % (op_term(st["op"]), cbool(st["ret"]), cbool(st["hang"]), cbool(bool(st["panic"])),
+                                              cbool(st["api"]), clist(st["gone"]), snap_term(st["snap"]), cbool(st.get("skip", False)))
 
 
 def case_term(r):
@@ -202,6 +206,7 @@ def run(ck):
         "adds_accepted": sum(1 for s in steps if s["op"][0] == "add" and s["ret"]),
         "adds_evicting_or_replacing": sum(1 for s in steps if s["op"][0] == "add" and s["gone"]),
         "steps_with_processables": sum(1 for s in steps if any(l[4] for l in s["snap"]["lists"])),
+        "overlapped_adds": sum(1 for s in steps if s.get("par")),
         "interleaved_reorgs": sum(1 for r in recs for a, b in zip(r["steps"], r["steps"][1:]) if a["op"][0] == "begin" and b["op"][0] != "finish"),
         "limits": "MaxTransactions 1..3, MaxTransactionsPerAccount 1..3",
     }
@@ -218,7 +223,7 @@ def run(ck):
         ck.extra["skeleton_translator"] = {k: summ.get(k) for k in ("functions", "lock_order", "nesting", "assumed_live_sends")}
     ck.assume += ["opaque calls under the pool lock (ABI.VerifyTransaction, p2pConnection.Publish, logger) return",
                   "Go's sync.RWMutex is writer-preferring (a waiting Lock blocks new RLocks); container/heap keeps a minimum at index 0",
-                  "harness interleavings are controlled at the verifier call of reorg goroutines only"]
+                  "harness interleavings are controlled at the verifier calls (reorg goroutines, and Add overlapped with Add/Remove/reorg)"]
     if ck.tier == "thorough":
         ck.coqchk(["LE.Properties.C14"])
 
